@@ -12,9 +12,20 @@
    the cache IS the specification (all schedules), resume/_start_suspender turn exactly the cache into the plan on
    top of the stack, and that plan yields exactly those messages in order and then returns to the plan below.
    Not in the engine model: monitor/unmonitor/subscribe/unsubscribe (implicit checkpoints on the real engine:
-   checked by the implementation-side oracle only). *)
-From Coq Require Import List.
-From BV Require Import Engine.RE Engine.REInst Proofs.RE_Ctl Proofs.RE_Replay Proofs.RE_CtlExamples.
+   checked by the implementation-side oracle only).
+
+   END TO END (second proof round, Proofs/RE_C04.v), over whole schedules:
+   C04_resume_replays_end_to_end / C04_resume_replays_messages -- any schedule that leaves the engine paused with cache l
+   and no stored exception, then resume(), then any window of task steps and non-interrupting events in which no command
+   fails and the lifecycle only goes to running: the executed messages and plan inputs are a prefix of l, or exactly l
+   followed by the interrupted frame being handed its pending response and (if it yields) its next message; once |l|
+   messages have been executed they are exactly l whatever follows.  C04_full as first written (no hypothesis on a
+   stored exception) is contradicted by the witness C04_needs_no_stored_exception.  C04_suspender_tail_replays: the same for the tail of the suspender
+   helper plan.  C04_implicit_checkpoints_end_to_end: what the cache holds was executed after the last checkpointing
+   item of the trace (checkpoint, clear_checkpoint, toggling rewindable, close_run, stage/unstage that did something). *)
+From Coq Require Import List Arith.
+From BV Require Import Engine.RE Engine.REInst Proofs.RE_Ctl Proofs.RE_Replay Proofs.RE_CtlExamples Proofs.RE_C04 Proofs.RE_C04Ex.
+From BV Require Proofs.RE_C10.
 Import ListNotations.
 
 (* after ANY schedule the engine's message cache is what the trace specification says *)
@@ -111,3 +122,126 @@ Example C04_nonvacuous_reissued :
   exists a b, snd (irun ex_pause_tapes ex_pause_ledger ex_pause_paus ex_pause_stag ex_pause_rec ex_pause_evs)
               = a ++ [OState Paused Running; OTask WSleep0; OMsg msg_null2; OResp (RVal VNone)] ++ b.
 Proof. exact c04_message_is_reissued. Qed.
+
+(* ================================================================== end to end over whole schedules (Proofs/RE_C04.v) *)
+(* only commands outside RunEngine._UNCACHEABLE_COMMANDS are ever in the cache *)
+Theorem C04_cache_only_cacheable :
+  forall (P : Type) (presume : P -> input -> outcome P) (plan_of : nat -> P) (D : Type) (dev : D -> nat -> devmeth -> D * devres)
+         (d : D) (paus stag : list nat) (rec : bool) (evs : list event) (l : list msg),
+    cache P D (fst (run P presume plan_of D dev (init P D d paus stag rec) evs)) = Some l ->
+    Forall (fun x => cacheable (mcmd x) = true) l.
+Proof. exact cache_cacheable. Qed.
+Print Assumptions C04_cache_only_cacheable.
+
+(* resume(): hypotheses are decidable conditions on the state reached by the prefix evs1 (paused, cache l, no stored
+   exception), on the events of the window w (task steps, permit, releases, successful statuses, cache completions only:
+   RE_C10.cont_ev) and on its observations (okobs: no failing response, no unknown command, lifecycle only -> running).
+   [pm] keeps the msg_hook messages and the inputs handed to user plans; [cont_pm top r] is "frame top is handed the
+   response r pending for it, and the message it yields (if any) is executed". *)
+Theorem C04_resume_replays_end_to_end :
+  forall (P : Type) (presume : P -> input -> outcome P) (plan_of : nat -> P) (D : Type) (dev : D -> nat -> devmeth -> D * devres)
+         (d : D) (paus stag : list nat) (rec : bool) (evs1 w : list event) (l : list msg),
+    let s0 := init P D d paus stag rec in
+    let s1 := fst (run P presume plan_of D dev s0 evs1) in
+    let s2 := fst (step P presume plan_of D dev s1 (EvMain AResume)) in
+    let ow := snd (run P presume plan_of D dev s2 w) in
+    ~ In (OBad 1) (snd (run P presume plan_of D dev s0 evs1)) ->
+    state P D s1 = Paused -> cache P D s1 = Some l -> stashed P D s1 = None -> exc_slot P D s1 = None ->
+    Forall (fun e => RE_C10.cont_ev e = true) w -> okobs ow ->
+    pm (snd (step P presume plan_of D dev s1 (EvMain AResume))) = [] /\
+    ((exists ms', map OMsg l = pm ow ++ map OMsg ms') \/
+     (exists o', pm ow = map OMsg l ++ o' /\
+        (o' = [] \/ exists top tl r rest o'',
+                      plans P D s1 = top :: tl /\ resps P D s1 = r :: rest /\ o' = cont_pm P presume top r ++ o''))).
+Proof. exact resume_replays_e2e. Qed.
+Print Assumptions C04_resume_replays_end_to_end.
+
+(* the same in the shape of C04_full: the executed messages of the window are a prefix of l; once |l| messages have been
+   executed, the messages executed after the resume begin with exactly l, whatever the rest of the schedule does *)
+Theorem C04_resume_replays_messages :
+  forall (P : Type) (presume : P -> input -> outcome P) (plan_of : nat -> P) (D : Type) (dev : D -> nat -> devmeth -> D * devres)
+         (d : D) (paus stag : list nat) (rec : bool) (evs1 w rest : list event) (l : list msg),
+    let s0 := init P D d paus stag rec in
+    let s1 := fst (run P presume plan_of D dev s0 evs1) in
+    let s2 := fst (step P presume plan_of D dev s1 (EvMain AResume)) in
+    let ow := snd (run P presume plan_of D dev s2 w) in
+    ~ In (OBad 1) (snd (run P presume plan_of D dev s0 evs1)) ->
+    state P D s1 = Paused -> cache P D s1 = Some l -> stashed P D s1 = None -> exc_slot P D s1 = None ->
+    Forall (fun e => RE_C10.cont_ev e = true) w -> okobs ow ->
+    firstn (length l) (msgs ow) = firstn (length (msgs ow)) l /\
+    (length l <= length (msgs ow) ->
+     firstn (length l) (msgs (snd (run P presume plan_of D dev s1 (EvMain AResume :: w ++ rest)))) = l).
+Proof. exact resume_replays_msgs. Qed.
+Print Assumptions C04_resume_replays_messages.
+
+(* suspension: once the helper plan has run the post-plan and restored rewindable (phase HRwBack), the messages captured by
+   _start_suspender (C04_suspender_pushes_cache: exactly the cache at that moment) are executed in order, then the
+   interrupted frame continues; state-level (any state of that shape), same window conditions *)
+Theorem C04_suspender_tail_replays :
+  forall (P : Type) (presume : P -> input -> outcome P) (plan_of : nat -> P) (D : Type) (dev : D -> nat -> devmeth -> D * devres)
+         (s : st P D) (h : helper P) (B : list (frame P)) (RB : list resp) (v : val) (w : list event),
+    state P D s = Running -> permit P D s = true -> pc P D s = PcSleep0 -> plans P D s = FHelper h :: B -> hph h = HRwBack ->
+    resps P D s = RVal v :: RB -> stashed P D s = None -> exc_slot P D s = None -> must_cancel P D s = false ->
+    length RB = length B -> B <> [] ->
+    Forall (fun x => cacheable (mcmd x) = true) (hrw h) ->
+    Forall (fun e => RE_C10.cont_ev e = true) w ->
+    okobs (snd (run P presume plan_of D dev s w)) ->
+    (exists ms', map OMsg (hrw h) = pm (snd (run P presume plan_of D dev s w)) ++ map OMsg ms') \/
+    (exists o', pm (snd (run P presume plan_of D dev s w)) = map OMsg (hrw h) ++ o' /\
+       (o' = [] \/ exists top tl r rest o'', B = top :: tl /\ RB = r :: rest /\ o' = cont_pm P presume top r ++ o'')).
+Proof. exact suspender_tail_replays. Qed.
+Print Assumptions C04_suspender_tail_replays.
+
+(* implicit checkpoints at trace level: [ckpt_item m it] says that trace item [it] completes, in specification state m, a
+   checkpoint / clear_checkpoint / toggling rewindable / close_run / effective stage or unstage; whatever the cache holds at
+   the end of the run was executed (msg_hook) after that item -- nothing executed only before it is ever replayed *)
+Theorem C04_implicit_checkpoints_end_to_end :
+  forall (P : Type) (presume : P -> input -> outcome P) (plan_of : nat -> P) (D : Type) (dev : D -> nat -> devmeth -> D * devres)
+         (d : D) (paus stag : list nat) (rec : bool) (evs : list event) (t1 : list titem) (it : titem) (t2 : list titem) (l : list msg),
+    trace P presume plan_of D dev (init P D d paus stag rec) evs = t1 ++ it :: t2 ->
+    ckpt_item (mon_run mon0 t1) it = true ->
+    cache P D (fst (run P presume plan_of D dev (init P D d paus stag rec) evs)) = Some l ->
+    Forall (fun y => In (TObs (OMsg y)) t2) l.
+Proof. exact implicit_checkpoint_e2e. Qed.
+Print Assumptions C04_implicit_checkpoints_end_to_end.
+
+(* C04_full as first written (no hypothesis about a stored exception) does not hold on the model: see the witness
+   C04_needs_no_stored_exception below (a status failing while the engine is paused; facts about that run, in the exact
+   shape of C04_full's hypotheses and with the opposite conclusion, are Proofs/RE_C04Ex.v [full_facts]); the corrected
+   statement is C04_resume_replays_messages *)
+(* non-vacuity: the recorded run ex_pause meets every hypothesis of the end-to-end theorems and shows the full conclusion *)
+Example C04_end_to_end_nonvacuous :
+  c04_evs1 ++ EvMain AResume :: c04_w ++ c04_rest = ex_pause_evs /\
+  no_oof (snd (xrun ex_pause_tapes xinit c04_evs1)) = true /\
+  state TP nat c04_s1 = Paused /\ cache TP nat c04_s1 = Some [msg_null2] /\ stashed TP nat c04_s1 = None /\ exc_slot TP nat c04_s1 = None /\
+  plans TP nat c04_s1 = [FUser 0 (0, 3) true] /\ resps TP nat c04_s1 = [RVal VNone] /\
+  forallb RE_C10.cont_ev c04_w = true /\ forallb okobb c04_ow = true /\
+  pm c04_ow = map OMsg [msg_null2] ++ cont_pm TP (t_resume ex_pause_tapes) (FUser 0 (0, 3) true) (RVal VNone) ++ [] /\
+  cont_pm TP (t_resume ex_pause_tapes) (FUser 0 (0, 3) true) (RVal VNone) = [OPlanIn 0 (Send VNone); OMsg msg_null3] /\
+  firstn 1 (msgs (snd (xrun ex_pause_tapes c04_s1 (EvMain AResume :: c04_w ++ c04_rest)))) = [msg_null2].
+Proof. exact c04_e2e_recorded. Qed.
+(* the hypotheses cannot be dropped (model runs; all other hypotheses hold in each) *)
+Example C04_needs_calm_window :
+  forallb RE_C10.cont_ev c04_w_pause = false /\
+  pm (snd (xrun ex_pause_tapes c04_s2 c04_w_pause)) = [OMsg msg_null2; OMsg msg_null2; OPlanIn 0 (Send VNone); OMsg msg_null3].
+Proof. exact c04_needs_calm_window. Qed.
+Example C04_needs_no_stored_exception :
+  state TP nat c04_s1b = Paused /\ cache TP nat c04_s1b = Some [msg_null2] /\ stashed TP nat c04_s1b = None /\
+  exc_slot TP nat c04_s1b = Some EFailedStatus /\
+  forallb RE_C10.cont_ev c04_w = true /\ forallb okobb (snd (xrun ex_pause_tapes c04_s2b c04_w)) = true /\
+  firstn 2 (pm (snd (xrun ex_pause_tapes c04_s2b c04_w))) = [OPlanIn 0 (Throw EFailedStatus); OMsg msg_null3].
+Proof. exact c04_needs_no_pending_failure. Qed.
+Example C04_needs_no_failing_command :
+  (forall c, c = CSave \/ c = CUnknown ->
+     no_oof (snd (xrun (fail_tapes c) xinit fail_evs1)) = true /\
+     state TP nat (fail_s1 c) = Paused /\ cache TP nat (fail_s1 c) = Some [fail_msg c 1; fail_msg CNull 2] /\
+     stashed TP nat (fail_s1 c) = None /\ exc_slot TP nat (fail_s1 c) = None /\ forallb RE_C10.cont_ev fail_w = true /\
+     forallb okobb (snd (xrun (fail_tapes c) (fail_s2 c) fail_w)) = false /\
+     firstn 2 (msgs (snd (xrun (fail_tapes c) (fail_s2 c) fail_w))) = [fail_msg c 1; fail_msg CNull 3]).
+Proof. exact c04_needs_no_failing_command. Qed.
+Example C04_implicit_checkpoint_nonvacuous :
+  exists t1 it t2,
+    itrace ex_pause_tapes ex_pause_ledger ex_pause_paus ex_pause_stag ex_pause_rec c04_evs1 = t1 ++ it :: t2 /\
+    ckpt_item (mon_run mon0 t1) it = true /\ it = TObs (OResp (RVal VNone)) /\
+    In (TObs (OMsg msg_null2)) t2 /\ ~ In (TObs (OMsg msg_null2)) t1.
+Proof. exact c04_implicit_checkpoint_recorded. Qed.
